@@ -18,7 +18,7 @@ import json
 import string
 
 from ..common import B, Ctx
-from ..tlc import MachineryError, run_tlc
+from ..tlc import MachineryError, run_tlc, run_apalache
 from .. import vloop, cloudsrv, disc, landev, acdev, refcrypto as rc
 from .c17 import rand_identity, build
 
@@ -438,7 +438,26 @@ def smarthome_runs(ctx):
                                            "canaries_rejected": len(cans)}
 
 
+def unbounded(ctx: Ctx):
+    """Budget / OnlyMatching / AbsentIsError for ANY number of calls and any token list: an inductive invariant of the abstract flow discharged by
+    Apalache (Init => IndInv, IndInv /\\ Next => IndInv', IndInv => Safety), and TLC checking that every step of Cloud!CNext (resp. SmartHome!SNext)
+    is a step of the abstract flow."""
+    cmds = []
+    for mod, init, nxt in (("Apa_CloudFlow", "CInit", "CNext"), ("Apa_SmartHomeFlow", "SInit", "SNext")):
+        cmds.append(run_apalache(mod, init=init, nxt=nxt, inv="IndInv", length=0, name=f"C19_apa_{mod}_init"))
+        cmds.append(run_apalache(mod, init="IndInv", nxt=nxt, inv="IndInv", length=1, name=f"C19_apa_{mod}_step"))
+        cmds.append(run_apalache(mod, init="IndInv", nxt=nxt, inv="Safety", length=0, name=f"C19_apa_{mod}_safe"))
+    ctx.checker_cmds += cmds
+    ctx.mc("MC_ApaRefine_Cloud", "SPECIFICATION CSpec\nCONSTANTS\nRetries = 3\nOutcomes <- AllOutcomes\nTokenLists <- MCLists\nMaxCalls = 3\n"
+           "PROPERTY StepRefines\nINVARIANT IdxBounded\nCHECK_DEADLOCK FALSE\n", name="C19_refine_cloud", timeout=1200)
+    ctx.mc("MC_ApaRefine_SmartHome", "SPECIFICATION SSpec\nCONSTANTS\nRetries = 3\nOutcomes <- AllOutcomes\nMaxCalls = 4\nPROPERTY StepRefines\nCHECK_DEADLOCK FALSE\n",
+           name="C19_refine_smarthome", timeout=1200)
+    ctx.extra["unbounded_flow_invariants"] = {"tool": "Apalache 0.58 (inductive invariant IndInv, 3 obligations per flow) + TLC step refinement",
+                                             "established": ["Cloud: Budget, OnlyMatching, AbsentIsError", "SmartHome: Budget, SessNeedsLid"]}
+
+
 def run(ctx: Ctx) -> int:
+    unbounded(ctx)
     ctx.mc("MC_Cloud", "SPECIFICATION CSpec\nCONSTANTS\nRetries = 3\nOutcomes <- AllOutcomes\nTokenLists <- MCLists\nMaxCalls = %d\n"
            "INVARIANT Budget\nINVARIANT OnlyMatching\nINVARIANT AbsentIsError\nCHECK_DEADLOCK FALSE\n" % ctx.pick(3, 5), name="C19_mc", timeout=3000)
     scn, total = scenarios(ctx, "C19_gen", 2, "FewLists", ctx.pick(500, 20000))
